@@ -35,14 +35,18 @@ fn parse_header(header: &str) -> Result<Header, ParseError> {
         return Err(ParseError::HeaderTooLong);
     }
 
-    let mut iterator = header
-        .splitn(PARTS, |c| c == SEPARATOR || c == CARRIAGE_RETURN)
-        .peekable();
-
-    let prefix = iterator.next().ok_or(ParseError::MissingPrefix)?;
+    // The fields end at the CR; whatever follows the CR is the line ending and never a field.
+    let (line, ending) = match header.find(CARRIAGE_RETURN) {
+        Some(position) => (&header[..position], Some(&header[position + 1..])),
+        None => (header, None),
+    };
     // Once the CR of the line is present no later byte can supply what is missing:
     // a partial keyword or a missing field is then an error, not an incomplete header.
-    let terminated = header.contains(CARRIAGE_RETURN);
+    let terminated = ending.is_some();
+
+    let mut iterator = line.splitn(PARTS, SEPARATOR).peekable();
+
+    let prefix = iterator.next().ok_or(ParseError::MissingPrefix)?;
 
     if !terminated
         && !prefix.is_empty()
@@ -78,19 +82,10 @@ fn parse_header(header: &str) -> Result<Header, ParseError> {
             })
         }
         Some(UNKNOWN) => {
-            // Whatever follows the protocol is ignored up to the line ending, which is
-            // found from the position of the CR and not from the separated parts.
-            return match header
-                .find(CARRIAGE_RETURN)
-                .map(|position| &header[position + 1..])
-            {
-                None | Some("") => Err(ParseError::MissingNewLine),
-                Some(NEWLINE) => Ok(Header {
-                    header: Cow::Borrowed(header),
-                    addresses: Addresses::Unknown,
-                }),
-                Some(_) => Err(ParseError::InvalidSuffix),
-            };
+            // Whatever follows the protocol is ignored up to the line ending.
+            while iterator.next().is_some() {}
+
+            Addresses::Unknown
         }
         Some(protocol) if !terminated && protocol.is_empty() && iterator.peek().is_none() => {
             return Err(ParseError::MissingProtocol)
@@ -104,22 +99,26 @@ fn parse_header(header: &str) -> Result<Header, ParseError> {
             return Err(ParseError::Partial)
         }
         Some(_) => return Err(ParseError::InvalidProtocol),
+        None if terminated => return Err(ParseError::InvalidProtocol),
         None => return Err(ParseError::MissingProtocol),
     };
 
-    let newline = iterator
+    if iterator
         .next()
-        .filter(|s| !s.is_empty())
-        .ok_or(ParseError::MissingNewLine)?;
-
-    if newline != NEWLINE || !header.ends_with(PROTOCOL_SUFFIX) {
+        .is_some_and(|part| terminated || !part.is_empty())
+    {
+        // Something other than the line ending follows the last field.
         return Err(ParseError::InvalidSuffix);
     }
 
-    Ok(Header {
-        header: Cow::Borrowed(header),
-        addresses,
-    })
+    match ending {
+        None | Some("") => Err(ParseError::MissingNewLine),
+        Some(NEWLINE) => Ok(Header {
+            header: Cow::Borrowed(header),
+            addresses,
+        }),
+        Some(_) => Err(ParseError::InvalidSuffix),
+    }
 }
 
 /// Parses the addresses and ports from a PROXY protocol header for IPv4 and IPv6.
